@@ -710,6 +710,12 @@ with SqlImpl.impl_store.impl_manager as impl:
     def _pos(x):
         return x
 
+    @impl(ops.neg)
+    def _neg(x):
+        # parenthesize: the negation of a negative literal would otherwise be rendered as
+        # `--7`, which starts a comment in SQL
+        return -sqa.sql.elements.Grouping(x)
+
     @impl(ops.abs)
     def _abs(x):
         return sqa.func.ABS(x, type_=x.type)
